@@ -116,6 +116,19 @@ def run(tier):
         nprobe += len(lev)
         events += lev
     chk.cov["lock_probes"] = nprobe
+    # design level, behind the hand-off events: the list of live sandboxes is process-wide. TLC proves that with
+    # such a list every lookup / destroy by the current user of a sandbox finds it, and refutes a list per thread
+    rs = os.path.join(vp.SPEC, "RegistryScope.tla")
+    r = vp.tlc(rs, os.path.join(vp.SPEC, "RegistryScope_Process.cfg"), name="RegistryScope_process", workers=1, timeout=300)
+    chk.add_tlc("RegistryScope (process-wide list)", r, "create / hand over / look up / destroy of 2 sandboxes by 2 threads: "
+                "AloneResults, Exact")
+    if r.violated or not r.ok:
+        chk.violation("design check failed: %s violated in RegistryScope.tla (process-wide list)" % r.violated,
+                      {"tlc_tail": r.out[-3000:]})
+    r = vp.tlc(rs, os.path.join(vp.SPEC, "RegistryScope_Thread.cfg"), name="RegistryScope_thread", workers=1, timeout=300)
+    if r.violated != "AloneResults":
+        raise vp.Broken("RegistryScope.tla no longer refutes the per-thread list: " + r.out[-800:])
+    chk.cov["registry_scope_refutes_per_thread_list"] = 1
     vp.write_ndjson(tpath, events)
     r = vp.tlc(os.path.join(vp.SPEC, "Trace_Threads.tla"), os.path.join(vp.SPEC, "Trace_Threads.cfg"), workers=1,
                timeout=1100, env={"TRACE": tpath}, xmx="10g")
